@@ -102,6 +102,13 @@ func (o *out) violation(idx int, what string) {
 	fmt.Fprintf(o.oracle, "VIOL %d %s\n", idx, what)
 	o.viol++
 }
+
+// outside marks a case as lying outside the domain the property quantifies over (e.g. a zoom above 31, a header of spec version 1,
+// an unsorted directory): model and implementation are still both run on it and a difference is recorded, but it is not a violation -
+// the property leaves that behaviour open, and the model mirrors the pinned code there only by accident.
+func (o *out) outside(idx int, why string) {
+	fmt.Fprintf(o.oracle, "OUTSIDE %d %s\n", idx, why)
+}
 func (o *out) count(k string) { o.stats[k]++ }
 func (o *out) close(dir string) {
 	o.cases.Flush()
@@ -260,6 +267,9 @@ func runSharded(prop string, seed uint64, n int, o *out) {
 				fmt.Sscan(f[1], &idx)
 				what = f[2]
 				o.violation(base+idx, what)
+			} else if len(f) == 3 && f[0] == "OUTSIDE" {
+				fmt.Sscan(f[1], &idx)
+				o.outside(base+idx, f[2])
 			}
 		}
 		if b, err := os.ReadFile(filepath.Join(rs.dir, "stats.json")); err == nil {
